@@ -2882,7 +2882,7 @@ def coq_prec(r):
 
 
 def coq_vmask(v):
-    return "(%s, %s, %s)" % (z(v[0]), z(v[1]), coq_list(coq_prec, v[2]))
+    return "(%s, %s, %s)" % (z(v[0]), z(v[1]), coq_list(coq_prec, v[2]) if v[2] else "(@nil prec)")
 
 
 def c_prec_d(r):
@@ -3146,7 +3146,7 @@ def coq_feffects(a):
     ch = lambda c: "(mkFCh %s %s %s)" % (z(c[0]), coq_opt(z, c[1]), coq_bytes(c[2]))
     ex = lambda x: "(mkFEx %s %s %s %s)" % (z(x[0]), zl(x[1]), z(x[2]), coq_bytes(x[3]))
     fe = lambda e: "(mkFE %s %s %s %s %s %s %s)" % (coq_bytes(e[0]), z(e[1]), zl(e[2]), z(e[3]), z(e[4]), coq_list(ch, e[5]), coq_opt(ex, e[6]))
-    return "(%s, %s)" % (z(a[0]), coq_list(fe, a[1]))
+    return "(%s, %s)" % (z(a[0]), coq_list(fe, a[1]) if a[1] else "(@nil feffect)")
 
 
 def c_feffects_d(a):
@@ -3649,6 +3649,16 @@ def obj_blk6(a):
                                              M(x[6]), b4(x[7]), bytes(x[8])) for x in a[3]])
 
 
+def _opaque_engine_data(desc):
+    """the descriptor with every RawData that holds a parsed object (EngineData) replaced by RawData of its bytes"""
+    from psd_tools.psd import descriptor as D
+
+    if not any(isinstance(v, D.RawData) and hasattr(v.value, "write") for v in desc.values()):
+        return desc
+    items = [(k, D.RawData(v.value.tobytes()) if isinstance(v, D.RawData) and hasattr(v.value, "write") else v) for k, v in desc.items()]
+    return D.DescriptorBlock(version=desc.version, items=items, name=desc.name, classID=desc.classID)
+
+
 def blk6_of_obj(o, pad=4):
     n = type(o).__name__
     col = lambda c: [int(getattr(c.id, "value", c.id)), [int(v) for v in c.values]]
@@ -3661,7 +3671,7 @@ def blk6_of_obj(o, pad=4):
         return ["placed", pad, fcc(o.kind), o.version, o.uuid.encode("macroman"), [o.page, o.total_pages, o.anti_alias, int(o.layer_type)],
                 [dbl_bits(x) for x in o.transform], [o.warp.version, dval_of_obj(o.warp)]]
     if n == "TypeToolObjectSetting":
-        return ["tysh", pad, o.version, [dbl_bits(x) for x in o.transform], o.text_version, dval_of_obj(o.text_data), o.warp_version,
+        return ["tysh", pad, o.version, [dbl_bits(x) for x in o.transform], o.text_version, dval_of_obj(_opaque_engine_data(o.text_data)), o.warp_version,
                 dval_of_obj(o.warp), [o.left, o.top, o.right, o.bottom]]
     if n == "PixelSourceData2":
         return ["pixel", pad, [bytes(x) for x in o]]
@@ -3763,10 +3773,74 @@ def g_blk6(rng, terms, units, wf=True):
 def run_blk6(a, exc_code):
     from psd_tools.psd import descriptor as D
 
+    from psd_tools.psd import tagged_blocks as T
+
     t0 = set(D._TERMS)
     pad = a[1] if a[0] in ("sold", "placed", "tysh", "pixel") else 4
+    real = T.EngineData.frombytes
+
+    def opaque(*args, **kw):
+        raise ValueError("engine data is opaque in the model: parser switched off for the twin run")
+
+    if has_engine_data(a):
+        T.EngineData.frombytes = opaque          # TypeToolObjectSetting.read then keeps the raw bytes ("Failed to read engine data")
     try:
         return run_payload(obj_blk6, lambda o: c_blk6_d(blk6_of_obj(o, pad)), a, {"padding": pad}, {}, wf_blk6(a), exc_code)
     finally:
+        T.EngineData.frombytes = real
         D._TERMS.clear()
         D._TERMS.update(t0)
+
+
+
+# ----------------------------------------------------------------------------- Stage 3: LayerInfoBlock (Psd/LrBlockProofs.v)
+def wf_lr_block(l):
+    if l[0] == 0:
+        return l[1] is not None and l[2] is not None and len(l[1]) == 0 and len(l[2]) == 0
+    return wf_li(l)
+
+
+def g_lr_block(rng, enc):
+    r = rng.random()
+    if r < 0.12:
+        return [0, [], []]
+    if r < 0.2:
+        return rng.choice([[0, None, None], [0, [], None], [0, None, []]])
+    l = g_li(rng, enc)
+    if l[0] == 0:
+        return [0, [], []]
+    return l
+
+
+def run_lr_block(v, pad, l, enc, exc_code):
+    """LayerInfoBlock(count, records, channel data) -> (outcome as Corr.lrblock_outcome, info)"""
+    L = _mods()[1]
+    try:
+        o0 = obj_li(l, enc)
+        o = L.LayerInfoBlock(o0.layer_count, o0.layer_records, o0.channel_image_data)
+    except Exception as e:
+        return None, {"stage": "build", "err": e}
+    wf = int(wf_lr_block(l))
+    f = io.BytesIO()
+    try:
+        n = o.write(f, encoding=enc, version=v, padding=pad)
+    except Exception as e:
+        return [exc_code(e)], {"stage": "write", "err": e}
+    b = f.getvalue()
+    out = [0, n, h63_list(0, list(b))]
+    info = {"stage": None, "obj": o, "bytes": b, "written": n}
+    try:
+        y = L.LayerInfoBlock.frombytes(b, encoding=enc, version=v)
+        cy = c_li_o(y, enc, v)
+    except Exception as e:
+        info.update(stage="read", err=e)
+        return out + [exc_code(e), wf], info
+    co = c_li_o(o, enc, v)
+    f2 = io.BytesIO()
+    try:
+        y.write(f2, encoding=enc, version=v, padding=pad)
+        same = f2.getvalue() == b
+    except Exception:
+        same = False
+    info.update(reread=y, eq=bool(y == o), same_canon=cy == co, rewrite_same=same)
+    return out + [0, h63_list(0, cy), int(cy == co), wf], info
